@@ -11,32 +11,32 @@ CHECKS = {
 }
 CHECKS.update({
  "C04": ("exploration", "reference-model monitor: list-of-surviving-records model shadowing writer programs, then sequential/skip, random-access and seek-next-from-every-offset read-back",
-         "Seeded writer programs (incl. seek-back) x 4 compressions x buffer sizes x buffered/direct I/O are executed with the real writer and read back through every reader/access path (sequential ReadNext/SkipNext mixes through the buffered and the direct-I/O reader factory, ReadNextAt, SeekNext); SeekNext is compared with the model at every byte offset of small files; payloads with long zero runs, direct-I/O files whose data end is swept across the last 32 bytes of a block and one written through an 8 MiB direct buffer are included. Exploration: bounded by the seeded case list, biased to marker bytes and buffer/page/4KiB-window boundaries.",
+         "Seeded writer programs (incl. seek-back) x 4 compressions x buffer sizes x buffered/direct I/O are executed with the real writer and read back through every reader/access path (sequential ReadNext/SkipNext mixes through the buffered and the direct-I/O reader factory - also over files written by the buffered writer, whose size is no block multiple -, ReadNextAt, SeekNext); SeekNext is compared with the model at every byte offset of small files; payloads with long zero runs, direct-I/O files whose data end is swept across the last 32 bytes of a block and one written through an 8 MiB direct buffer are included. Exploration: bounded by the seeded case list, biased to marker bytes and buffer/page/4KiB-window boundaries.",
          "trusts the 90-line independent layout parser only as a cross-check; payloads embedding a complete valid record image are excluded (format-level ambiguity)", "§3 C04", "E1"),
  "C12": ("fault_enumeration", "fault enumeration on generated files: every truncation length, every record-header byte x 255 values, every unsupported file-header value; oracle = independent layout parser + written records",
          "For each generated file every truncation length and every single-byte alteration of every record-header byte (all 255 values on small files) is materialised and read with both readers, cut files additionally by a sequential program with SkipNext mixed in (every 4th case through the direct-I/O reader factory); every other sequential reader is closed twice before the random-access pass; the oracle demands genuine records only. Exhaustive over single-byte header damage for the generated files, sampled over files.",
          "header byte positions come from the harness's own parser (cross-checked against the writer's offsets on the undamaged file)", "§3 C12", "E1"),
  "C14": ("exploration", "reference-model monitor: map-with-tombstones model shadowing every memstore call; flush read back through the real table reader",
-         "Every result/error of seeded call sequences over all methods is compared with the model, then both flush variants are read back with the real SSTable reader (Scan and Get, nil vs empty); lookup buffers are reused, iterator results are kept and re-inspected, and the spare capacity of returned keys is overwritten. Exploration over seeded programs; right level for a single-threaded in-memory structure.",
+         "Every result/error of seeded call sequences over all methods is compared with the model, then both flush variants are read back with the real SSTable reader (Scan and Get, nil vs empty); lookup buffers are reused, iterator results are kept and re-inspected, and the spare capacity of returned keys is overwritten; every fifth program takes all its keys as prefixes of ONE caller buffer. Exploration over seeded programs; right level for a single-threaded in-memory structure.",
          "size estimate checked only for wrap-around (bounded by 4x bytes ever passed)", "§3 C14", "E1"),
 })
 CHECKS.update({
  "C03": ("exploration", "reference-model monitor: sorted-map model vs real table reader for every index loader, compression pair, bloom sizing and buffer size",
-         "Generated tables (hostile keys incl. empty key and an index-dominating last key, nil/empty/marker-laden values) are written with both writers and opened with every index loader (every other table through loader values that already loaded earlier tables); Contains/Get on all keys and neighbours, full/starting-at/range scans on probe samples are compared with a sorted-map model; half of the evaluations pass all probe keys and bounds through reused caller buffers. Exploration over the seeded table list x loader matrix.",
+         "Generated tables (hostile keys incl. empty key and an index-dominating last key, nil/empty/marker-laden values) are written with both writers and opened with every index loader (every other table through loader values that already loaded earlier tables); Contains/Get on all keys and neighbours, full/starting-at/range scans on probe samples are compared with a sorted-map model; half of the evaluations pass all probe keys and bounds through reused caller buffers whose bytes behind the argument are marked and inspected after the call. Exploration over the seeded table list x loader matrix.",
          "map loader exercised only inside its documented fixed-width domain", "§3 C03", "E1"),
  "C08": ("exploration", "reference-model monitor: latest-wins union model vs stacked reader and real merger over stacks of real tables",
-         "Stacks of 1..6 real tables with overlapping keys, tombstones and the empty key are built; stacked Get/Contains/scans, pairs of scans alive at the same time, both compacting reductions (merged into a real table and read back) and the plain merge are compared with the union model; half of the skip-list-loader stacks are ordered by a descending comparator. Exploration over seeded stacks.",
+         "Stacks of 1..6 real tables with overlapping keys, tombstones and the empty key are built; stacked Get/Contains/scans, pairs of scans alive at the same time, both compacting reductions (merged into a real table and read back) and the plain merge are compared with the union model; half of the skip-list-loader stacks are ordered by a descending comparator; half of the stacks have compressed index files, one key family is long and compresses well. Exploration over seeded stacks.",
          "tombstone = nil value; nil values are filtered from merged read-backs before comparison", "§3 C08", "E1"),
 })
 CHECKS.update({
  "C09": ("fault_enumeration", "fault enumeration on generated tables: every data-file byte x 13 replacement values, every truncation, every record swap, under both verification modes; oracle = written values",
-         "For each generated table every single-byte damage (bit flips, 00, FF, marker bytes), truncation length and record swap of the data file is materialised and read back through Get (twice in a row and once more after the scans, on the same reader), Scan and ScanRange with verify-on-load and verify-on-read (all spellings of the option pair); one table in four contains the empty key; any value different from the written one returned without error, or a panic, is a violation. Exhaustive over the enumerated damage for small tables, sampled over tables.",
+         "For each generated table every single-byte damage (bit flips, 00, FF, marker bytes), truncation length and record swap of the data file is materialised and read back through Get (twice in a row and once more after the scans, on the same reader), Scan and ScanRange with verify-on-load and verify-on-read (all spellings of the option pair; read buffers of 16 bytes .. default, mostly smaller than the data file), and as the newer member of a two-table stack through Get and all three scans; one table in four contains the empty key; any value different from the written one returned without error, or a panic, is a violation. Exhaustive over the enumerated damage for small tables, sampled over tables.",
          "CRC collisions would show as violations; empty/nil values only constrained under byte damage of uncompressed tables (format design)", "§3 C09", "E1"),
  "C15": ("exploration", "reference-model monitor + fault injection at the tag-guarded writer hook: accepted-pairs model vs real stream writer under arbitrary key sequences and clean data/index append failures",
          "Seeded WriteNext programs with unsorted/repeated/empty keys (one in three under a difference-valued comparator, half through one reused key buffer) and injected data- or index-append failures (incl. immediate retries) are run against the real writer; each call's result class, the table content after Close and every metadata field (vs real file sizes) are compared with the model.",
          "injected failures are clean failures (wrapped writer untouched), the shape of the repository's own failing-writer test double", "§3 C15", "E1+E6a"),
  "C20": ("exploration", "differential monitor: Kaitai-generated reader vs native reader vs independent layout parser on files written by the real writer; enum names read from the published .ksy",
-         "Files with nil/empty/large records (payload lengths exactly at the varint boundaries 127/128, 16383/16384, 2097151/2097152) under all four compression types (one in four written by a program that rolls records back, every 6th case three files written at the same time from three goroutines, with rollback targets from Write's result or from Size(), and refused seeks in between) are decoded by the repository's Kaitai-generated reader and compared record by record (count, nil flag, stored bytes) with the native reader and an independent parser; compression codes are checked against the enum in recordio_v4.ksy.",
+         "Files with nil/empty/large records (payload lengths exactly at the varint boundaries 127/128, 16383/16384, 2097151/2097152) under all four compression types (one in four written by a program that rolls records back, every 6th case three files written at the same time from three goroutines, with rollback targets from Write's result or from Size(), refused seeks in between, and the writer given a path or a file handle: fresh, recycled after Truncate, or opened for appending) are decoded by the repository's Kaitai-generated reader and compared record by record (count, nil flag, stored bytes) with the native reader and an independent parser; compression codes are checked against the enum in recordio_v4.ksy.",
          "the generated Go reader stands for the schema (no kaitai-struct-compiler offline)", "§3 C20", "E1"),
 })
 CHECKS.update({
@@ -51,7 +51,7 @@ CHECKS.update({
 })
 CHECKS.update({
  "C06": ("exploration", "reference-model monitor + tag-guarded single-cycle helper: read-all before/after every compaction cycle over built table lineages; selection checked as a contiguous run of the live table list",
-         "Lineages of real tables with controlled sizes and tombstone ratios (tombstones over older, larger values; size- and ratio-selected tables around an unselected one) are built through forced rotations; every compaction cycle is bracketed by a read of all keys (identical before/after and equal to the map), its selection must be a gap-free run in age order replaced in the slot of its oldest member; settings are redrawn at reopens; one lineage in eight sits on top of one of the repository's legacy-format fixture tables (no metadata file, reports 0 records / 0 bytes).",
+         "Lineages of real tables with controlled sizes and tombstone ratios (tombstones over older, larger values; size- and ratio-selected tables around an unselected one) are built through forced rotations; every compaction cycle is bracketed by a read of all keys (identical before/after and equal to the map), its selection must be a gap-free run in age order replaced in the slot of its oldest member; settings are redrawn at reopens; one lineage in a hundred carries a value of 1..2 MiB in every table; one lineage in eight sits on top of one of the repository's legacy-format fixture tables (no metadata file, reports 0 records / 0 bytes).",
          "selection policy itself is not judged, only gap-freeness and placement", "§3 C06", "E1"),
  "C17": ("exploration", "differential monitor (string-API database vs byte-API database) + reference map that ignores rejected calls, observed directly / after rotation+flush / after clean reopen; sessions with a WAL that cannot append (direct I/O without async) as a source of I/O errors",
          "The same seeded program with nil/empty/non-UTF-8/64 KiB arguments runs against two databases through the two API flavours; decisions and results must agree, rejected calls (incl. calls on a handle before its Open) must leave no trace at any observation point, and reads must not change across flush or restart. Crash-image observation is provided by the C02 engine (C17 crash cases).",
@@ -65,7 +65,7 @@ CHECKS.update({
          "One SimpleDB handle (8 goroutines, own, shared and each other's keys with self-describing values, rotations and compactions running or everything in one memstore; in every other run callbacks at two named points make the flusher's table publication and the compactor's swap start within nanoseconds of each other, every other run calls Close while the calls are still in flight, two shared keys hold 40..70 KiB values), one SSTableReader (8..16 goroutines of Get/Contains/range scans; one table in three without a bloom filter file) and one MMapReader (ReadNextAt/SeekNext) are exercised in the race-detector build across seeds and GOMAXPROCS {2,4,16}; any report touching go-sstables or the harness, any abnormal exit, any result differing from the sequential answer and any state-based deadlock (a client blocked inside the library while no library goroutine can run, read off the watchdog's goroutine dump) is a violation.",
          "the race detector reports only races that happened in the observed executions; Scan() is outside the documented concurrent surface", "§3 C18", "E4"),
  "C19": ("exploration", "resource census monitor: /proc/self/fd + /proc/self/maps filtered by directory and goroutine dump filtered by go-sstables frames, at quiescent points and after Close",
-         "Driven SimpleDB sessions with >=40 cycles are censused at every quiescent point (descriptors <= 4, mappings <= live tables + 3) and after Close (nothing left, no library goroutine, re-Open and RemoveAll work); live sessions are closed while a compaction is held in flight at a hook point; table and RecordIO readers/writers (incl. failed Opens, abandoned scans, legacy-format tables, writers rewound before Close, stacked readers one member of which was closed before, and delete-only sessions on a fresh directory) must return to the baseline after Close.",
+         "Driven SimpleDB sessions with >=40 cycles are censused at every quiescent point (descriptors <= 4, mappings <= live tables + 3) and after Close (nothing left, no library goroutine, re-Open and RemoveAll work); live sessions are closed while a compaction is held in flight at a hook point; table and RecordIO readers/writers (incl. failed Opens, abandoned scans, legacy-format tables, writers rewound before Close, stacked readers one member of which was closed before, delete-only sessions on a fresh directory, and short sessions over planted crash residue (empty table folder, table folder with an empty metadata file, leftover compaction folder) with the garbage collector held off so that no finalizer hides a forgotten descriptor) must return to the baseline after Close.",
          "Linux /proc is the ground truth; goroutine attribution by stack frames", "§3 C19", "E5"),
 })
 CHECKS.update({
@@ -75,14 +75,14 @@ CHECKS.update({
 })
 CHECKS.update({
  "C07": ("fault_enumeration", "reference-model monitor (appended sequence vs fresh Replay) + offline checkers over strace logs of WAL-only sessions: crash image at every mutating call -> Replay in a fresh process must give a prefix containing all acknowledged sync appends; fsync-ordering monitor over write/fsync events",
-         "(a) seeded append/rotate programs over limits {9..1MiB}, buffers and compressions (every 20th through the direct-I/O writer) are replayed through the still-open log object in between and by the same object and a fresh replayer at the end; (b) WAL-only sessions run under strace with small writer buffers so that flushes cut records, every boundary between mutating system calls is materialised and replayed by a fresh process; (c) the same log is scanned for 'write reached the file and the file was fsynced before AppendSync returned'; (d) programs whose appender meets a failing write(2) (RLIMIT_FSIZE in a sub-process) and goes on appending, retrying and rotating: replay must succeed and deliver the attempts minus failed ones as a gap-free prefix containing every acknowledged sync append.",
+         "(a) seeded append/rotate programs over limits {9..1MiB}, buffers and compressions (every 20th through the direct-I/O writer; base paths handed over in spellings that are not in cleaned form, another spelling for the fresh replayer; every 10th program shares its process with two other logs appended to from goroutines of their own) are replayed through the still-open log object in between and by the same object and a fresh replayer at the end; (b) WAL-only sessions run under strace with small writer buffers so that flushes cut records, every boundary between mutating system calls is materialised and replayed by a fresh process; (c) the same log is scanned for 'write reached the file and the file was fsynced before AppendSync returned'; (d) programs whose appender meets a failing write(2) (RLIMIT_FSIZE in a sub-process) and goes on appending, retrying and rotating: replay must succeed and deliver the attempts minus failed ones as a gap-free prefix containing every acknowledged sync append.",
          "kill -9 model; nil and empty records are both length-0 payloads for the oracle", "§3 C07", "E1+E2"),
  "C10": ("fault_enumeration", "nested crash-image enumeration: level-1 images from traced sessions, recovery of each traced again, level-2 (sampled level-3) image at every mutating call of Open incl. unlink-order permutations; oracle = read-all after the uninterrupted recovery",
          "For sampled crash images of real sessions (per phase, incl. pending flagged compactions and non-empty WALs) the recovery itself runs under strace; after every mutating system call of that recovery (and for every subset of each listing-ordered unlink run) a fresh Open must succeed and read exactly what the uninterrupted recovery reads. Exhaustive over the crash points of the traced recoveries; level-1 images are sampled.",
          "kill -9 model; only unlinks issued relative to a directory descriptor (os.RemoveAll) are permuted, program-ordered unlinks are not", "§2.2, §3 C10", "E2"),
  "C13": ("fault_enumeration", "same engine as C02 with the asynchronous WAL: oracle = recovered content equals the reference map after some prefix p >= L of the invoked operations, L = operations acknowledged before the newest WAL file was created",
-         "Traced sessions with EnableAsyncWAL, including ones that log 6..25 MB of incompressible values so that the 4 MiB WAL buffer wraps and cuts records (every second of those through the direct-I/O WAL writer on a real disk); every crash image is recovered by a fresh process; Open must succeed and the content must be a hole-free, order-preserving prefix that includes everything before the last rotation.",
-         "kill -9 model; the in-flight operation may be the last element of the prefix", "§3 C13", "E2"),
+         "Traced sessions with EnableAsyncWAL, including ones that log 6..25 MB of incompressible values so that the 4 MiB WAL buffer wraps and cuts records (every second of those through the direct-I/O WAL writer on a real disk); every crash image is recovered by a fresh process; Open must succeed and the content must be a hole-free, order-preserving prefix that includes everything before the last rotation; the last session of every second small run is driven by three concurrent clients with disjoint keys (oracle there: whole-state prefix of the calls before the phase, or per client a prefix of that client's calls containing all its durable ones).",
+         "kill -9 model; the in-flight operation may be the last element of the prefix; orderings between concurrent clients are not judged", "§3 C13", "E2"),
 })
 NOT_YET = {}
 props = [json.loads(l) for l in open(os.path.join(ROOT, "properties.jsonl"))]
